@@ -20,7 +20,7 @@ META = {
                     "conformance oracle: vlib.shapes.*.conforms (isinstance per position; bool accepted for int)"],
 }
 
-EXTRA = [M.Unrelated(), b"ab", M.Point(1, 2), M.NT(1, "x"), (1, "a")]
+EXTRA = [M.Unrelated(), b"ab", M.Point(1, 2), M.NT(1, "x"), (1, "a"), b"x", b"a", bytearray(b"y"), b"2"]
 
 
 def _um(T):
